@@ -111,7 +111,7 @@ def cases(tier, seed, prep=None):
         out.append({"seed": seed * 1000003 + 500000 + i, "offer": kind, "name_i": rng.randrange(len(NAMES)) if i % 4 else 0,
                     "out_i": rng.randrange(len(OUTS)), "accept": rng.choice([True, True, False]),
                     "answer": rng.choice(["y", "y", "n", ""]), "pre": rng.choice(["absent", "absent", "file", "dir"]),
-                    "members": pick_members(rng) if kind == "directory" else []})
+                    "members": pick_members(rng) if kind == "directory" else [], "hangup": rng.choice([None, None, None, None, 0.0, 0.5])})
     # the interactive prompt in all its answers, crossed with the awkward destinations under --output-file=<dir>
     k = 0
     for nm in ("", ".", "..", "dir/", "trail//", "pre.dir", "good.txt"):
@@ -128,6 +128,8 @@ def cases(tier, seed, prep=None):
         out.append({"seed": seed * 1000003 + 580000 + i, "offer": kind, "name_i": [0, NAMES.index("good.txt")][i % 2] if "good.txt" in NAMES else 0,
                     "out_i": rng.choice([0, 0, OUTS.index("pre.dir")]), "accept": rng.choice([True, True, False]),
                     "answer": "y", "pre": "absent", "tmp_sibling": ["file", "file", "link", "dangling"][i % 4],
+                    # half of these transfers fail after they were accepted: the sender hangs up part-way
+                    "hangup": [None, 0.5, None, 0.0, None, 0.9][i % 6],
                     "members": pick_members(rng) if kind == "directory" else []})
     # the destination name already exists as a symbolic link that leads out of the working directory
     for i in range(90 if tier == "quick" else 3000):
@@ -183,7 +185,7 @@ def build_zip(rng, members, destname):
 
 
 @defer.inlineCallbacks
-def evil_sender(world, code, offer, payload, log):
+def evil_sender(world, code, offer, payload, log, hangup=None):
     r = world.reactor
     w = create(APPID, URL, r)
     w.set_code(code)
@@ -204,6 +206,14 @@ def evil_sender(world, code, offer, payload, log):
             if "answer" in m:
                 break
         rp = yield ts.connect()
+        if hangup is not None:
+            # a sender that gives up in the middle (or right at the start) of the data
+            cut = int(len(payload) * hangup)
+            for i in range(0, cut, 16384):
+                rp.send_record(payload[i:min(cut, i + 16384)])
+            log.append(("hung up after", cut))
+            rp.close()
+            return
         for i in range(0, len(payload), 16384):
             rp.send_record(payload[i:i + 16384])
         log.append(("sent", len(payload)))
@@ -306,7 +316,7 @@ def _run(spec, world, base):
     elog = []
     receiver = cmd_receive.Receiver(ra, r)
     rr = Result(receiver.go())
-    rs = Result(evil_sender(world, code, offer, payload, elog))
+    rs = Result(evil_sender(world, code, offer, payload, elog, hangup=spec.get("hangup")))
     sch = Scheduler(world, None, strategy=rng.choice(["random", "netfirst"]), chunking="whole")
     sch.run(20000, until=lambda: rr.done and rs.done)
     if not (rr.done and rs.done):
@@ -391,7 +401,7 @@ def _run(spec, world, base):
     evil = sum(1 for m in listed if m.startswith("..") or m.startswith("/") or "/../" in m or m in ("", ".", "..", "./", "../") or "evil" in m or m in ("link-to-outside", "setuid", "zeroperm", "dirperm-file"))
     return {"violations": viol, "nontrivial": nontrivial,
             "counters": {"writes_observed": len(log), "transfers_completed": int(completed), "refusals": int(refused),
-                         "evil_members": evil, "offer_" + spec["offer"]: 1, "pre_symlink_cases": int(str(pre).startswith("symlink")), "tmp_sibling_cases": tmp_sibling, "rejected_by_receiver": int(ro != "success"),
+                         "evil_members": evil, "offer_" + spec["offer"]: 1, "pre_symlink_cases": int(str(pre).startswith("symlink")), "tmp_sibling_cases": tmp_sibling, "sender_hung_up": int(any(e[0] == "hung up after" for e in elog)), "rejected_by_receiver": int(ro != "success"),
                          "paths_changed": len(changed)},
             "sets": {"receiver_errors": [type(rr.failure.value).__name__ + ":" + str(rr.failure.value)[:50]] if rr.failure else []},
             "sample": {"spec": spec, "offer_name": repr(name), "members": listed, "output_file": out, "pre": pre, "receiver": ro,
